@@ -134,7 +134,28 @@ pub fn check_nsarg(c: &NsArgCase, st: &mut Stats) -> Result<(), String> {
     }
     let ltt = LocalTimeType::with_ut_offset(c.off).map_err(|e| format!("{e:?}"))?;
     let types = [ltt];
-    let zone = TimeZoneRef::new(&[], &types, &[], &None).map_err(|e| format!("{e:?}"))?;
+    // zone shape by offset parity: fixed (no table, no rule) / table only / fixed trailer / DST rule: fields are validated on every path
+    let trans = [tz::timezone::Transition::new(0, 0), tz::timezone::Transition::new(1_000_000_000, 0)];
+    let fixed_rule = Some(tz::timezone::TransitionRule::Fixed(ltt));
+    let alt_rule = tz::timezone::AlternateTime::new(
+        tz::LocalTimeType::new(0, false, Some(b"STD")).unwrap(),
+        tz::LocalTimeType::new(3600, true, Some(b"DST")).unwrap(),
+        tz::timezone::RuleDay::MonthWeekDay(tz::timezone::MonthWeekDay::new(3, 5, 0).unwrap()),
+        7200,
+        tz::timezone::RuleDay::MonthWeekDay(tz::timezone::MonthWeekDay::new(10, 5, 0).unwrap()),
+        10800,
+    )
+    .ok()
+    .map(tz::timezone::TransitionRule::Alternate);
+    let alt_types = [tz::LocalTimeType::new(0, false, Some(b"STD")).unwrap(), tz::LocalTimeType::new(3600, true, Some(b"DST")).unwrap()];
+    let none = None;
+    let zone = match c.off.rem_euclid(4) {
+        0 => TimeZoneRef::new(&[], &types, &[], &none),
+        1 => TimeZoneRef::new(&trans, &types, &[], &none),
+        2 => TimeZoneRef::new(&trans, &types, &[], &fixed_rule),
+        _ => TimeZoneRef::new(&[], &alt_types, &[], &alt_rule),
+    }
+    .map_err(|e| format!("{e:?}"))?;
     let is_ns_err = |e: &TzError| matches!(e, TzError::DateTime(DateTimeError::InvalidNanoseconds));
     let r1 = UtcDateTime::new(f.y, f.mo, f.d, f.h, f.mi, f.s, f.ns);
     let r2 = DateTime::new(f.y, f.mo, f.d, f.h, f.mi, f.s, f.ns, ltt);
@@ -184,6 +205,7 @@ fn arb_i128() -> SBoxedStrategy<i128> {
         2 => any::<i128>(),
         3 => (gens::arb_unix_time(), -1i128..=1, proptest::sample::select(vec![0i128, 1, 999_999_999, 500_000_000])).prop_map(|(t, e, r)| t as i128 * E9 + e + r),
         2 => (-100_000i128..100_000, -1i128..=1).prop_map(|(k, e)| k * E9 + e),
+        2 => (-9_300_000_000i128..9_300_000_000, prop_oneof![Just(0i128), 0i128..1_000_000_000]).prop_map(|(k, r)| k * E9 + r),
         2 => (-5_000_000_000_000_000_000i128..5_000_000_000_000_000_000i128),
         1 => (proptest::sample::select(vec![i128::MIN, i128::MAX, i64::MIN as i128 * E9, i64::MAX as i128 * E9, (i64::MAX as i128 + 1) * E9, (i64::MIN as i128 - 1) * E9, 0]), -3i128..=3).prop_map(|(b, e)| b.saturating_add(e)),
     ]
@@ -220,6 +242,23 @@ pub fn run(ctx: &Ctx) -> Outcome {
             for e in [-2i128, -1, 0, 1, 2, 999_999_999, -999_999_999, 500_000_000, -500_000_000, 999_999_998] {
                 for off in [0, 3600, -1] {
                     let c = NanoCase { n: (k * E9 + e).to_string(), off };
+                    check_enum("nano", &c, st, |c, st| check_nano(c, st, true))?;
+                }
+            }
+        }
+        // limits of narrower integer types of the nanosecond count itself (a 64-bit fast path would break exactly here)
+        for b in [i64::MAX as i128, i64::MIN as i128, u64::MAX as i128, 1i128 << 64, -(1i128 << 64), u32::MAX as i128, i32::MAX as i128, i32::MIN as i128, (i32::MAX as i128) * E9, (i32::MIN as i128) * E9, (u32::MAX as i128) * E9] {
+            for d in -3i128..=3 {
+                for off in [0, 3600] {
+                    let c = NanoCase { n: (b + d).to_string(), off };
+                    check_enum("nano", &c, st, |c, st| check_nano(c, st, true))?;
+                }
+            }
+            // the whole second containing the limit
+            for r in [0i128, 1, 854_775_807, 854_775_808, 999_999_999] {
+                let base = (b / E9) * E9;
+                for sgn in [1i128, -1] {
+                    let c = NanoCase { n: (base + sgn * r).to_string(), off: 0 };
                     check_enum("nano", &c, st, |c, st| check_nano(c, st, true))?;
                 }
             }
